@@ -76,10 +76,10 @@ TABLE = {
             "From every reachable router state with the channel closed and ready sinks, every path reaches Ready(()) with the buffer delivered and flushed; "
             "shutdown closes every topic channel before joining; lock order consistent.",
             "Bounded time in seconds and real sink readiness not decided.", "§3 C16"),
-    "C17": ("E5", "live-across-yield analysis of the global topics guard and of any permit/guard across the hand-over wait; who-may-wait rule on the topic queue; per-topic task/channel rules; connection-window constant rule on both endpoints",
+    "C17": ("E5+E3", "live-across-yield analysis of the global topics guard and of any permit/guard across the hand-over wait; who-may-wait rule on the topic queue; per-topic task/channel rules; connection-window constant rule on both endpoints; PollAI no-spin (K6) on both routers' poll",
             "While the global topics MutexGuard is live, no future whose completion depends on a peer/topic router may be awaited; the wait for room in a topic's queue "
             "happens only in the stream's own task with nothing shared held; each topic has its own task and channel; the connection-level receive window of either "
-            "endpoint is not capped near the per-stream window.",
+            "endpoint is not capped near the per-stream window; no router poll can go round for ever without consuming anything (it would never yield its runtime worker).",
             "The >100 registrations race itself and QUIC flow-control dynamics are not decided.", "§3 C17"),
 }
 
